@@ -49,7 +49,14 @@ def _task(args):
     except BaseException as e:  # harness failure is never silently a pass
         if isinstance(e, KeyboardInterrupt):
             raise
-        return start, None, dict(stats), traceback.format_exc(), time.time() - t
+        from mc import sweep
+        if isinstance(e, sweep.SweepError):
+            # the fixed workbook of a value sweep consists of corpus-style valid formulas: if the library refuses it (or
+            # emits text that does not load), that is an observation about the library, reported like any other
+            vio = [{'i': 0, 'desc': {'func': 'workbook', 'clause': 'scaffold', 'outcome': 'SCAFFOLD'}, 'expected': 'the fixed workbook of this phase translates and loads',
+                    'observed': str(e)[:400], 'noconfirm': True}]
+        else:
+            return start, None, dict(stats), traceback.format_exc(), time.time() - t
     for v in vio:
         v['case'] = chunk[v['i']]
     return start, vio, dict(stats), None, time.time() - t
